@@ -260,14 +260,26 @@ def rule_twopass(c, prog):
     for n in core.walk_fn(fn):
         if n.get("k") == "If":
             cnd = core.strip(n["c"])
-            if cnd.get("k") == "Binary" and cnd["op"] == "!=" and core.lit_value(cnd["r"]) == "null":
-                if any(x.get("k") == "MethodCall" and x["m"] == "add_referent_rewrite" for x in core.walk(n["t"])):
-                    a = [x for x in core.walk(n["t"]) if x.get("k") == "MethodCall" and x["m"] == "add_referent_rewrite"][0]
-                    # (the instance being read: the Ref parameter, the property name parameter, the referent text just read)
-                    idl = common.param_lid_by_type(fn, lambda t: t.endswith("referent::Ref"))
-                    nml = common.param_lid_by_type(fn, lambda t: t.lstrip("&").strip() in ("str", "ustr::Ustr"))
-                    ok = idl is not None and nml is not None and core.strip(a["args"][0]).get("lid") == idl and common.derives_from(fn, a["args"][1], nml) \
-                        and common.local_from_call(fn, a["args"][2], "read_tag_contents") and common.derives_from(fn, cnd["l"], core.strip(a["args"][2]).get("lid"))
+            if cnd.get("k") != "Binary" or cnd["op"] not in ("!=", "==") or "null" not in (core.lit_value(cnd["r"]), core.lit_value(cnd["l"])):
+                continue
+            text_side = cnd["l"] if core.lit_value(cnd["r"]) == "null" else cnd["r"]
+            adds = [x for x in core.walk_fn(fn) if x.get("k") == "MethodCall" and x["m"] == "add_referent_rewrite"]
+            in_then = {id(x) for x in core.walk(n["t"])}
+            in_if = {id(x) for x in core.walk(n)}
+            if cnd["op"] == "!=":
+                # `if text != "null" { register }`
+                adds = [x for x in adds if id(x) in in_then]
+            else:
+                # `if text == "null" { return .. }` and the registration after it, outside the test
+                leaves = any(x.get("k") == "Ret" for x in core.walk(n["t"], into_closures=False))
+                adds = [x for x in adds if id(x) not in in_if and sp_after(x, n)] if leaves else []
+            if adds:
+                a = adds[0]
+                # (the instance being read: the Ref parameter, the property name parameter, the referent text just read)
+                idl = common.param_lid_by_type(fn, lambda t: t.endswith("referent::Ref"))
+                nml = common.param_lid_by_type(fn, lambda t: t.lstrip("&").strip() in ("str", "ustr::Ustr"))
+                ok = idl is not None and nml is not None and core.strip(a["args"][0]).get("lid") == idl and common.derives_from(fn, a["args"][1], nml) \
+                    and common.local_from_call(fn, a["args"][2], "read_tag_contents") and common.derives_from(fn, text_side, core.strip(a["args"][2]).get("lid"))
     if ok:
         c.ok(R, "reader:read_ref-registers")
     else:
@@ -437,9 +449,10 @@ def rule_twopass(c, prog):
     for n in core.walk_fn(fn):
         if n.get("k") == "If":
             cnd = core.strip(n["c"])
-            if cnd.get("k") == "MethodCall" and cnd["m"] == "is_none" and core.strip(cnd["recv"]).get("lid") == common.param_lid_by_type(fn, lambda t: t.endswith("referent::Ref")):
-                t_null = any(core.lit_value(x) == "null" for x in core.walk(n["t"]) if x.get("k") == "Lit")
-                f_map = "f" in n and any(x.get("k") == "MethodCall" and x["m"] == "map_id" for x in core.walk(n["f"]))
+            if cnd.get("k") == "MethodCall" and cnd["m"] in ("is_none", "is_some") and core.strip(cnd["recv"]).get("lid") == common.param_lid_by_type(fn, lambda t: t.endswith("referent::Ref")) and "f" in n:
+                none_br, some_br = (n["t"], n["f"]) if cnd["m"] == "is_none" else (n["f"], n["t"])
+                t_null = any(core.lit_value(x) == "null" for x in core.walk(none_br) if x.get("k") == "Lit") and not any(x.get("k") == "MethodCall" and x["m"] == "map_id" for x in core.walk(none_br))
+                f_map = any(x.get("k") == "MethodCall" and x["m"] == "map_id" for x in core.walk(some_br)) and not any(core.lit_value(x) == "null" for x in core.walk(some_br) if x.get("k") == "Lit")
                 ok = t_null and f_map
     if ok:
         c.ok(R, "writer:write_ref-map_id")
@@ -454,6 +467,17 @@ def rule_twopass(c, prog):
         c.ok(R, "writer:map_id-sole-allocator")
     else:
         c.violation(R, "writer|allocator", f"referent numbers are allocated outside EmitState::map_id: {sorted(users)}", "", instance="writer:map_id-sole-allocator")
+
+
+def sp_after(a, b):
+    """a starts after b ends (source order)"""
+    def key(n, end=False):
+        parts = (n.get("sp") or "").split(":")
+        try:
+            return (int(parts[3]), int(parts[4])) if end and len(parts) >= 5 else (int(parts[1]), int(parts[2]))
+        except (IndexError, ValueError):
+            return (0, 0)
+    return key(a) >= key(b, end=True)
 
 
 def C02_contains(t, sub):
